@@ -70,7 +70,18 @@ func rulesC01(c *Ctx, r *Report) {
 		r.undecided("W80", where, "sequence lines", c.pos(w.Pos()), "no single sequence-line write with one operand")
 		return
 	}
-	sl, _ := line.args[0].(*ssa.Slice)
+	lineArg := line.args[0]
+	if par, ok := lineArg.(*ssa.Parameter); ok && line.site != nil && line.site != line.call {
+		// the write lives in a helper: the operand is what Write passes for that parameter
+		if g := line.site.Call.StaticCallee(); g != nil {
+			for i, p := range g.Params {
+				if p == par && i < len(line.site.Call.Args) {
+					lineArg = line.site.Call.Args[i]
+				}
+			}
+		}
+	}
+	sl, _ := lineArg.(*ssa.Slice)
 	if sl == nil || sl.Low == nil || sl.High == nil || recvFieldName(w, s.expr(sl.X)) != "Sequence" {
 		r.violated("W80", where, "sequence window", c.pos(line.call.Pos()), "the sequence line is not a window f.Sequence[i:to]")
 		return
@@ -91,10 +102,11 @@ func rulesC01(c *Ctx, r *Report) {
 	hi := s.expr(sl.High)
 	seqLen := "builtin:len(" + s.expr(sl.X).String() + ")"
 	var width int64 = -1
-	if hi.Op == "builtin:min" && len(hi.Args) == 2 {
+	if a, b, ok := asMin(hi); ok {
+		pair := []*Sym{a, b}
 		for k := 0; k < 2; k++ {
-			if hi.Args[1-k].String() == seqLen {
-				d := linSub(linOf(hi.Args[k]), linOf(s.expr(sl.Low)))
+			if pair[1-k].String() == seqLen {
+				d := linSub(linOf(pair[k]), linOf(s.expr(sl.Low)))
 				if len(nonZero(d.coef)) == 0 {
 					width = d.k
 				}
@@ -136,4 +148,31 @@ func nonZero(m map[string]int64) []string {
 		}
 	}
 	return out
+}
+
+// asMin: e is min(a, b): the builtin, or a choice `if a > b { b } else { a }` in any of its spellings.
+func asMin(e *Sym) (*Sym, *Sym, bool) {
+	if e.Op == "builtin:min" && len(e.Args) == 2 {
+		return e.Args[0], e.Args[1], true
+	}
+	if (e.Op != "ite" && e.Op != "phi") || len(e.Args) != 3 {
+		return nil, nil, false
+	}
+	c, t, f := e.Args[0], e.Args[1], e.Args[2]
+	if len(c.Args) != 2 {
+		return nil, nil, false
+	}
+	x, y := c.Args[0].String(), c.Args[1].String()
+	ts, fs := t.String(), f.String()
+	switch c.Op {
+	case "bin:<", "bin:<=":
+		if x == ts && y == fs { // t < f ? t : f
+			return t, f, true
+		}
+	case "bin:>", "bin:>=":
+		if x == fs && y == ts { // f > t ? t : f
+			return t, f, true
+		}
+	}
+	return nil, nil, false
 }
